@@ -14,8 +14,8 @@
 using namespace gt;
 
 static const char *LEAF_SHAPES[] = {"x", "y:i", "z::i", "v#2", "w#3::i", "a#2/b", "d#2/e#2", "g#2/h:i"};
-static const char *SUB_SHAPES[] = {"s/", "t#2/", "u#3/k#2/c/"};
-static const int NL = 8, NS = 3;
+static const char *SUB_SHAPES[] = {"s/", "t#2/", "u#3/k#2/c/", "p/::i"};
+static const int NL = 8, NS = 4;
 
 struct Walked { const rtosc::Port *port; std::string addr; };
 static std::vector<Walked> g_walked;
@@ -118,6 +118,7 @@ static void run_tree(std::shared_ptr<Node> root, const std::string &tid)
     vp::trace();
 }
 
+static bool is_sub(const std::string &nm) { return nm.back() == '/' || (nm.find(':') != std::string::npos && nm.find(':') > 0 && nm[nm.find(':') - 1] == '/'); }
 static std::shared_ptr<Node> level(const std::vector<std::string> &names, const std::vector<std::shared_ptr<Node>> &children)
 {
     auto n = std::make_shared<Node>(); size_t c = 0;
@@ -214,7 +215,7 @@ int main(int argc, char **argv)
     for(size_t a = 0; a < ALL.size(); ++a) for(int b = -1; b < (int)ALL.size(); ++b) {
         if(b == (int)a) continue;
         std::vector<std::string> names = {ALL[a]}; if(b >= 0) names.push_back(ALL[b]);
-        int nsub = 0; for(auto &n : names) if(n.back() == '/') ++nsub;
+        int nsub = 0; for(auto &n : names) if(is_sub(n)) ++nsub;
         if(!nsub) continue;
         size_t combos = nsub == 1 ? reps.size() : reps.size() * reps.size();
         for(size_t c = 0; c < combos; ++c, ++top) {
